@@ -256,9 +256,9 @@ def roundtrip_kernel(ctx):
     it = ctx.interp(); st = State()
     imgs = constructed_image(ctx, it, st, 'LinearRgb', 'linearrgb')
     s, img = imgs[0]
-    o1 = it.call_fn(s, ctx.entry(CONVERSIONS['LinearRgb->Xyb'][0]), [img])
+    o1 = drop_empty_image_outcomes(ctx, it.call_fn(s, ctx.entry(CONVERSIONS['LinearRgb->Xyb'][0]), [img]))
     s1, xyb = o1[0]
-    o2 = it.call_fn(s1, ctx.entry(CONVERSIONS['Xyb->LinearRgb'][0]), [xyb])
+    o2 = drop_empty_image_outcomes(ctx, it.call_fn(s1, ctx.entry(CONVERSIONS['Xyb->LinearRgb'][0]), [xyb]))
     s2, back = o2[0]
     c = ctx.crate
     dims_ok = field(c, back, 'width') is X.sym(X.USIZE, 'linearrgb.width') and field(c, back, 'height') is X.sym(X.USIZE, 'linearrgb.height')
